@@ -28,6 +28,11 @@ func Yield()                           {}
 // Jitter marks a point inside a harness transport where, natively, a replay of a schedule-dependent
 // counterexample pauses for a random few microseconds (the interpreter explores schedules itself).
 func Jitter() {}
+
+// HBRelease / HBAcquire let a model state a happens-before edge the real implementation provides
+// (everything before the release of key happens before what follows a later acquire of key).
+func HBRelease(key any) {}
+func HBAcquire(key any) {}
 func AllocLimit(n int)                 {}
 func SameBacking(a, b []byte) bool     { return false }
 
